@@ -392,8 +392,16 @@ func c19Validator(kind, k int) func(uint16) bool {
 
 func c19Build(rs []c19Reg) *modbus.Regs {
 	regs := &modbus.Regs{}
+	// the registers are added in the order of the list; where the next one is the next address the first is added
+	// on its own and then once more as part of a range of two (as an application with a 16-bit and a 32-bit value at
+	// one address does): the map is the same list either way
+	for i := 0; i < len(rs); i++ {
+		regs.AddReg(rs[i].Addr, 1)
+		if i+1 < len(rs) && rs[i+1].Addr == rs[i].Addr+1 && (rs[i].Addr+len(rs))%2 == 0 {
+			regs.AddReg(rs[i].Addr, 2)
+		}
+	}
 	for _, r := range rs {
-		regs.AddReg(r.Addr, 1)
 		_ = regs.WriteReg(r.Addr, uint16(r.Val))
 	}
 	for _, r := range rs {
